@@ -1,11 +1,17 @@
 pub mod asm;
+pub mod c07;
+pub mod c08;
 pub mod c09;
 pub mod c10;
 pub mod c16;
+pub mod c17;
 pub mod c19;
 pub mod c20;
 pub mod corpus;
 pub mod infra;
+pub mod prog;
+pub mod ref_evm;
+pub mod vmrun;
 pub mod obs;
 pub mod u256;
 pub mod util;
@@ -13,6 +19,6 @@ pub mod util;
 use infra::Check;
 
 pub fn registry() -> Vec<Box<dyn Check>> {
-    vec![Box::new(c09::C09), Box::new(c10::C10), Box::new(c16::C16), Box::new(c19::C19), Box::new(c20::C20)]
+    vec![Box::new(c07::C07), Box::new(c08::C08), Box::new(c09::C09), Box::new(c10::C10), Box::new(c16::C16), Box::new(c17::C17), Box::new(c19::C19), Box::new(c20::C20)]
 }
 pub mod u256_selfcheck;
